@@ -7,7 +7,7 @@ PROP, LEVEL = 'C11', 'exploration'
 
 
 def make_table_cases(tier, seed):
-    n = 300 if tier == 'quick' else 5000
+    n = 800 if tier == 'quick' else 6000
     nops = 400 if tier == 'quick' else 2000
     cases, exps = [], []
     for i in range(n):
@@ -52,7 +52,7 @@ def make_table_cases(tier, seed):
 
 
 def make_export_cases(tier, seed):
-    n = 120 if tier == 'quick' else 1500
+    n = 300 if tier == 'quick' else 2000
     cases = []
     for i in range(n):
         r = gen.seeded(seed, 'C11e', i)
